@@ -12,11 +12,20 @@ import (
 
 var stringToNumberParseInteger = regexp.MustCompile(`^(?:0[xX])`)
 
+// stringToNumberSyntax is StrNumericLiteral of ES5 9.3.1 (white space already stripped):
+// a signed StrDecimalLiteral or an unsigned HexIntegerLiteral.  strconv accepts more
+// (digit separators, "Inf"/"infinity"/"nan" in any case), all of which are NaN here.
+var stringToNumberSyntax = regexp.MustCompile(`^(?:[+-]?(?:Infinity|(?:[0-9]+\.?[0-9]*|\.[0-9]+)(?:[eE][+-]?[0-9]+)?)|0[xX][0-9a-fA-F]+)$`)
+
 func parseNumber(value string) float64 {
 	value = strings.Trim(value, builtinStringTrimWhitespace)
 
 	if value == "" {
 		return 0
+	}
+
+	if !stringToNumberSyntax.MatchString(value) {
+		return math.NaN()
 	}
 
 	var parseFloat bool
